@@ -22,7 +22,8 @@ REQUIRED = ["iff_checked:plurality", "iff_checked:approval", "iff_checked:superm
             "margin_checked:oracle_tally", "margin_checked:contest_tally_rules_off", "margin_checked:contest_tally_rules_on",
             "stratum:tie", "stratum:exact_threshold", "stratum:lacking_contest_style_off", "truth:winners_really_won",
             "truth:winners_did_not_win", "margin_tally_holds_write_in_votes",
-            "style_mean_rechecked_after_scoring_cards_lacking_the_contest", "card_count_revised_after_assertions_were_made"]
+            "style_mean_rechecked_after_scoring_cards_lacking_the_contest", "card_count_revised_after_assertions_were_made",
+            "margin_checked:contest_level_call_with_confirmed_assertions"]
 ASSUMPTIONS = ["shares f in {1/2,1/4,1/8} (f and 1/(2f) both dyadic) are exact in binary; inexact shares (2/3, 0.6) are only evaluated at a "
                "distance from the threshold that rounding cannot bridge", "a mark for a name that is not on the contest's "
                "candidate list (write-in) appears only on ballots with no mark for a listed candidate, so that no "
@@ -338,3 +339,20 @@ def run_case(prof, rec):
         ok, _ = rec.guard("c02.call:Contest.tally", Contest.tally, {"con": con}, cvrs, True)
         if ok:
             cmp_margin("contest_tally_rules_on", con.tally, (kind == "supermajority") or not has_overvote)
+            # (d) the contest-level call on the same tally, in the state an audit leaves the objects in: margins hold
+            # values from an earlier tally and some assertions are already marked confirmed
+            if (kind == "supermajority") or not has_overvote:
+                con.assertions = asns
+                for j, a in enumerate(asns.values()):
+                    a.margin = 0.9
+                    a.proved = (j % 2 == 0)
+                ok, _ = rec.guard(f"c02.call:Contest.find_margins_from_tally:{kind}", con.find_margins_from_tally)
+                if ok:
+                    rec.count("margin_checked:contest_level_call_with_confirmed_assertions")
+                    for name, a in asns.items():
+                        want = 2 * full_means[name] - 1
+                        if not math.isclose(a.margin, want, rel_tol=1e-9, abs_tol=1e-12):
+                            rec.violation("c02.margin", f"{kind}:contest_level_call:margin_differs_from_2mean_minus_1",
+                                          {"assertion": name, "margin": a.margin, "two_mean_minus_1": want, "proved": a.proved,
+                                           "tally": dict(con.tally)})
+                            return
